@@ -18,6 +18,7 @@ import (
 	"bytes"
 	"fmt"
 	"io"
+	"strings"
 )
 
 // Schema is a GraphQL schema.
@@ -59,6 +60,20 @@ func (t *Schema) Extend(x Type) error {
 		}
 	}
 	return t.Object.Base.Extend(x)
+}
+
+// conventional returns true if the schema is what is implied by types named
+// Query, Mutation, and Subscription when there is no schema block.
+func (t *Schema) conventional() bool {
+	if 0 < len(t.Dirs) {
+		return false
+	}
+	for _, fd := range t.fields.list {
+		if fd.Type == nil || fd.Type.Name() != strings.Title(fd.N) { // nolint:staticcheck
+			return false
+		}
+	}
+	return true
 }
 
 // Validate a type.
